@@ -6,6 +6,21 @@ PROPS = ['C%02d' % i for i in range(1, 21)]
 BASELINE = "cd /repo && /venv/bin/python -m pytest -ra -q -p no:cacheprovider --timeout=900 --continue-on-collection-errors"
 
 CLAIMED = {
+ 'C10': dict(
+    category='proof',
+    text="Per year, Rocq theorem C10_names_ok_<year>: names_ok cat decls absent known = true, where cat is the deep embedding of EVERY line "
+         "body regenerated from the form sources on this run (fail-closed ast translator), decls the declared names obtained by "
+         "introspection, and names_ok the reference analysis of coq/FormsRefs.v computed inside the kernel: every v[...]/i[...]/"
+         "threshold()/form()/attribute reference on every syntactic path (both arms of every conditional, loop bodies with loop variables "
+         "over constants expanded and open indices accepted only in the instance position of a name) resolves, or names a form listed "
+         "as deliberately absent. 'known' = the open findings of known_findings.jsonl (currently 17 lines that can reach the solver's "
+         "internal assertion / an undeclared input); anything else fails the theorem. Tie: the same ASTs re-evaluate real solutions line by "
+         "line (translator validation, exact agreement). Dynamic witness search: internal exceptions leaving solve() on real-form scenarios.",
+    design_ref='DESIGN.md §4 C10',
+    note="Finite, exhaustive, decided by computation in the kernel. NOT proved: soundness of the analysis w.r.t. the interpreter (argued by "
+         "construction: every reading node of the AST is visited). Trusted: translator (validated), oracles/absent_forms.json.",
+    technique='Rocq reflective check (vm_compute) over a regenerated deep embedding + translator validation',
+ ),
  'C05': dict(
     category='proof',
     text="Rocq theorem C05_schedule_independent: two finished runs of the solver model on the same catalogue that differ in attempt order "
